@@ -5,6 +5,7 @@ import (
 	"encoding/base64"
 	"encoding/binary"
 	"fmt"
+	"github.com/ucan-wg/go-ucan/pkg/command"
 	"sort"
 	"strings"
 	"sync"
@@ -203,6 +204,8 @@ func evalContainer(line string) (string, string) {
 		return containerWriteCheck(f[1], f[2]), line
 	case "go.ctn.concurrent":
 		return containerConcurrent(), line
+	case "go.ctn.loader":
+		return containerAsLoader(), line
 	case "go.tok.stream":
 		return tokenStreamCheck(f[1], f[2], f[3]), line
 	}
@@ -370,6 +373,17 @@ func tokenStreamCheck(kind, alg, ns string) (out string) {
 		if _, err := read(&faultio.Reader{Data: b, FailAt: off, Chunks: []int{1 + off%4}}); err == nil {
 			return fmt.Sprintf("FromSealedReader returned no error although the reader failed at offset %d of %d", off, len(b))
 		}
+		// a fault reported once TOGETHER WITH data, after which the stream continues: the reader failed, so no token
+		if off < len(b) {
+			for _, ch := range [][]int{{1}, {3}, {7, 2}, nil} {
+				if _, err := read(&faultio.Reader{Data: b, FailAt: off, Transient: true, Chunks: ch}); err == nil {
+					return fmt.Sprintf("FromSealedReader returned no error although a read at offset %d of %d reported a failure along with its data", off, len(b))
+				}
+				if _, _, err := token.FromSealedReader(&faultio.Reader{Data: b, FailAt: off, Transient: true, Chunks: ch}); err == nil {
+					return fmt.Sprintf("token.FromSealedReader returned no error although a read at offset %d of %d reported a failure along with its data", off, len(b))
+				}
+			}
+		}
 		// right after a failed read, an honest stream is read as if nothing had happened before (all three entry points)
 		for _, honest := range []func() (cid.Cid, error){
 			func() (cid.Cid, error) {
@@ -417,6 +431,75 @@ func tokenStreamCheck(kind, alg, ns string) (out string) {
 		fw := &faultio.Writer{FailCall: call}
 		if got, err := write(fw); err == nil && (!sigDeterministic(alg) || !bytes.Equal(fw.Buf, probe.Buf)) {
 			return fmt.Sprintf("write call %d of %d failed but ToSealedWriter returned %s and no error", call, probe.Calls, got)
+		}
+	}
+	return "ok"
+}
+
+// containerAsLoader: a container used as the proof loader of the invocations it holds. A proof link that names
+// another INVOCATION of the container (or nothing in it) is a missing delegation: an error, never a panic, never allowed.
+func containerAsLoader() (out string) {
+	defer func() {
+		if r := recover(); r != nil {
+			out = fmt.Sprint("panic ", r)
+		}
+	}()
+	k := keyFor("ed25519", 0)
+	aud := keyFor("ed25519", 1)
+	root, err := delegation.Root(k.did, aud.did, command.MustParse("/x"), nil)
+	if err != nil {
+		return "fixture: " + err.Error()
+	}
+	rb, rc, err := root.ToSealed(k.priv)
+	if err != nil {
+		return "fixture: " + err.Error()
+	}
+	good, err := invocation.New(aud.did, k.did, command.MustParse("/x/y"), []cid.Cid{rc})
+	if err != nil {
+		return "fixture: " + err.Error()
+	}
+	gb, gc, err := good.ToSealed(aud.priv)
+	if err != nil {
+		return "fixture: " + err.Error()
+	}
+	odd, err := invocation.New(aud.did, k.did, command.MustParse("/x/y"), []cid.Cid{gc}) // its "proof" is an invocation
+	if err != nil {
+		return "fixture: " + err.Error()
+	}
+	ob, oc, err := odd.ToSealed(aud.priv)
+	if err != nil {
+		return "fixture: " + err.Error()
+	}
+	w := container.NewWriter()
+	w.AddSealed(rc, rb)
+	w.AddSealed(gc, gb)
+	w.AddSealed(oc, ob)
+	for _, f := range []string{"cbor", "car"} {
+		var data []byte
+		var rd container.Reader
+		if f == "cbor" {
+			if data, err = w.ToCbor(); err == nil {
+				rd, err = container.FromCbor(data)
+			}
+		} else {
+			if data, err = w.ToCar(); err == nil {
+				rd, err = container.FromCar(data)
+			}
+		}
+		if err != nil {
+			return "fixture (" + f + "): " + err.Error()
+		}
+		for c, inv := range rd.GetAllInvocations() {
+			err := inv.ExecutionAllowed(rd)
+			switch {
+			case c == gc && err != nil:
+				return f + ": the invocation whose proof is in the container is refused: " + err.Error()
+			case c == oc && err == nil:
+				return f + ": an invocation whose only proof is another invocation is allowed"
+			}
+		}
+		if d, err := rd.GetDelegation(gc); err == nil {
+			return fmt.Sprintf("%s: GetDelegation on the CID of an invocation returned no error (token nil: %v)", f, d == nil)
 		}
 	}
 	return "ok"
@@ -526,6 +609,7 @@ func runContainerStream(c *ctx) error {
 		}
 	}
 	c.emit("go.ctn.concurrent", "container.concurrent", true, "concurrent")
+	c.emit("go.ctn.loader 0", "container.loader", true, "loader")
 	for _, kind := range []string{"dlg", "inv"} {
 		for i, alg := range []string{"ed25519", "p256", "secp256k1"} {
 			c.emit(fmt.Sprintf("go.tok.stream %s %s %d", kind, alg, i), "token.stream:"+kind, true, "tokstream:"+kind)
